@@ -339,6 +339,67 @@ def run_history(lib, progs, schedule, rnd):
             "scheduled": schedule is not None}, calls[0]
 
 
+def run_preempted(lib, A, B, k):
+    """The schedule S1 S2 E2 E1 of Purity.tla realised DETERMINISTICALLY: call A (thread 1) is suspended at the k-th line it
+    executes inside the library, call B (thread 2) runs from start to end, A resumes.  For module-level state this is exactly
+    what a thread switch at that line does, without leaving the choice of the line to the interpreter's scheduler.
+    Returns (trace, number of library lines A executed)."""
+    gc = lib.gc
+    prefix = os.path.dirname(os.path.abspath(gc.__file__))
+    events = []
+    objs = lib.const_objects()
+    snap0 = lib.quick_snapshot(objs)
+    deep0 = lib.deep_snapshot(objs)
+    del gc._verif_writes[:]
+    state = {"n": 0, "fired": k <= 0}
+
+    def do_call(ti, call, traced):
+        cls, key, fn, factory = call
+        args = factory()
+        asig = sig(args)
+        events.append({"k": "S", "t": ti, "cls": cls, "key": key})
+        w0 = len(gc._verif_writes)
+        try:
+            with warnings.catch_warnings():
+                warnings.simplefilter("ignore")
+                if traced:
+                    sys.settrace(glob)
+                try:
+                    res = "ok:" + h(sig(fn(*args)))
+                finally:
+                    if traced:
+                        sys.settrace(None)
+        except Exception as ex:
+            res = "exc:" + type(ex).__name__
+        for w in gc._verif_writes[w0:]:
+            events.append({"k": "W", "t": ti, "obj": w[0], "attr": w[1], "old": w[2], "new": w[3]})
+        events.append({"k": "E", "t": ti, "cls": cls, "key": key, "res": res, "exc": "", "args_same": sig(args) == asig,
+                       "consts_same": lib.quick_snapshot(objs) == snap0, "iso": ISO.get(key, "")})
+
+    def local(frame, event, arg):
+        if event == "line":
+            state["n"] += 1
+            if not state["fired"] and state["n"] == k:
+                state["fired"] = True
+                sys.settrace(None)
+                w0 = len(gc._verif_writes)
+                do_call(2, B, False)
+                del gc._verif_writes[w0:]          # already reported as thread 2's
+                sys.settrace(glob)
+        return local
+
+    def glob(frame, event, arg):
+        return local if frame.f_code.co_filename.startswith(prefix) else None
+
+    do_call(1, A, True)
+    if not state["fired"]:
+        do_call(2, B, False)
+    # the nested call's events were appended while A was running: S1 S2 [W2] E2 [W1] E1 is already the order of `events`
+    if lib.deep_snapshot(objs) != deep0:
+        events[-1]["consts_same"] = False
+    return {"progs": [[A[0]], [B[0]]], "ev": events, "keys": [[A[1]], [B[1]]], "scheduled": True, "preempt_at": k}, state["n"]
+
+
 def tlaps_proof():
     """tlapm on spec/proofs/PurityProof.tla (inductive invariant => Determinism and NoSharedWrite, Spec => [] of them)"""
     import re
@@ -491,6 +552,30 @@ def run(ctx):
         tr, n = run_history(lib, progs, None, rnd)
         ncalls += n
         traces.append(tr)
+    # the nested schedule S1 S2 E2 E1 with the switch placed, in turn, at lines spread over the whole of call A (two members of the
+    # same class: they use the same code and therefore the same module-level state, if there is any; then the next class)
+    npre = 0
+    for ci, cls in enumerate(CLASSES):
+        for other in (cls, CLASSES[(ci + 1) % len(CLASSES)]):
+            A = pick(lib, cls, rnd, counter)
+            # B: a member far from A in the class's list (neighbours are often the same parameter set at another epoch)
+            lst = lib.calls[other]
+            ib = (counter.get(other, 0) + len(lst) // 2 + ci) % len(lst)
+            B = (other,) + tuple(lst[ib])
+            if B[1] == A[1]:
+                B = (other,) + tuple(lst[(ib + 1) % len(lst)])
+            tr0, nlines = run_preempted(lib, A, B, 0)
+            ncalls += 2
+            traces.append(tr0)
+            npre += 1
+            want = 30 if quick else 400
+            ks = sorted(set(max(1, (nlines * j) // want) for j in range(1, want + 1))) if nlines else []
+            for k in ks:
+                tr, _n = run_preempted(lib, A, B, k)
+                ncalls += 2
+                traces.append(tr)
+                npre += 1
+    ctx.extra["preempted_histories"] = npre
     ctx.evaluations = ncalls
     for tr in traces:
         ctx.nontrivial(json.dumps([tr["keys"], [(e["k"], e["t"]) for e in tr["ev"]] if len(tr["progs"]) > 1 else 0]))
@@ -504,23 +589,26 @@ def run(ctx):
         ctx.violation(describe(tr, l, clause),
                       "history threads=%d keys=%s event=%s" % (len(tr["progs"]), json.dumps(tr["keys"])[:300],
                                                               json.dumps(tr["ev"][l - 1] if l else {})[:400]),
-                      case={"keys": tr["keys"], "progs": tr["progs"], "scheduled": tr["scheduled"],
+                      case={"keys": tr["keys"], "progs": tr["progs"], "scheduled": tr["scheduled"], "preempt_at": tr.get("preempt_at"),
                             "order": [(e["k"], e["t"]) for e in tr["ev"] if e["k"] in "SE"]})
     bad = set(i for (i, l, c) in fails)
     ctx.selftest(selftest, [t for i, t in enumerate(traces) if i not in bad])
     ctx.extra["histories"] = {"single_thread_exhaustive": n_single, "two_thread_schedules": len(scheds2),
-                              "simulated_len_le_50": len(sims), "free_running_2_to_8_threads": nfree}
+                              "simulated_len_le_50": len(sims), "free_running_2_to_8_threads": nfree,
+                              "nested_S1_S2_E2_E1_switch_at_a_chosen_line": npre}
     ctx.extra["concrete_calls"] = sum(len(v) for v in lib.calls.values())
     ctx.rule = ("histories = TLC-generated schedules: every single-thread program of length <= %d over 16 abstract call "
                 "classes, every interleaving of 2 threads x programs <= 2 over 5 classes%s, simulated programs of length <= 50, "
-                "plus free-running 2..8 real threads; each abstract class is bound to one of %d concrete calls (rotating); "
+                "free-running 2..8 real threads, and the nested schedule S1 S2 E2 E1 with the switch placed deterministically at lines "
+                "spread over call A (same class twice, then the next class); each abstract class is bound to one of %d concrete calls (rotating); "
                 "distinct = distinct (concrete call sequence per thread, event order); the repository tests never repeat a "
                 "call nor inspect constants" % (2 if quick else 3, " (700 sampled)" if quick else "", ctx.extra["concrete_calls"]))
     for tr in traces[:1] + traces[n_single + 3:n_single + 4] + traces[-1:]:
         ctx.sample({"threads": len(tr["progs"]), "keys": tr["keys"], "events": [(e["k"], e["t"], e.get("res", e.get("key", ""))) for e in tr["ev"]][:12]})
     ctx.assumptions += ["writes that bypass __setattr__ (direct __dict__ mutation) are seen only as net changes by the snapshot",
                         "an exception raised by a call is treated as its result (purity is about effects), it must repeat",
-                        "thread interleaving inside a call is left to the interpreter (switch interval 1 microsecond); "
+                        "thread interleaving inside a call: free-running histories leave it to the interpreter (switch interval 1 "
+                        "microsecond); the nested histories place the switch at a chosen library line (30 per pair in quick, up to 400 = every line in thorough); "
                         "call start/finish order of scheduled histories is forced to TLC's schedule"]
 
 
@@ -564,7 +652,10 @@ def replay(ctx, data):
         order = [("S" if k == "S" else "F", t - 1) for (k, t) in c["order"]]
     ISO.clear()
     ISO.update(isolated_references(lib))
-    tr, n = run_history(lib, progs, order, random.Random(0))
+    if c.get("preempt_at") is not None:
+        tr, n = run_preempted(lib, progs[0][0], progs[1][0], c["preempt_at"])
+    else:
+        tr, n = run_history(lib, progs, order, random.Random(0))
     fails = validate([tr], ctx, "replay")
     for (i, l, clause) in fails:
         ctx.violation(describe(tr, l, clause), json.dumps(tr["ev"][l - 1] if l else {})[:600])
